@@ -456,7 +456,14 @@ impl Check for SsMintPure {
 
 #[derive(Clone, Debug, Serialize, Deserialize)]
 pub enum Op {
-    Provide { user: u8, a0: Amt, a1: Amt },
+    Provide {
+        user: u8,
+        a0: Amt,
+        a1: Amt,
+        /// assets listed in the message in the opposite order to the pool's own
+        #[serde(default)]
+        reversed: bool,
+    },
     ProvideBalanced { user: u8, k: u16 },
     ProvideOneSided { user: u8, which: bool, k: u16 },
     Withdraw { user: u8, k: u16 },
@@ -482,7 +489,7 @@ fn amt100() -> BoxedStrategy<Amt> {
 
 fn op() -> BoxedStrategy<Op> {
     prop_oneof![
-        2 => (0u8..4, amt100(), amt100()).prop_map(|(user, a0, a1)| Op::Provide { user, a0, a1 }),
+        2 => (0u8..4, amt100(), amt100(), any::<bool>()).prop_map(|(user, a0, a1, reversed)| Op::Provide { user, a0, a1, reversed }),
         2 => (0u8..4, 1u16..30000).prop_map(|(user, k)| Op::ProvideBalanced { user, k }),
         2 => (0u8..4, any::<bool>(), 1u16..60000).prop_map(|(user, which, k)| Op::ProvideOneSided { user, which, k }),
         3 => (0u8..4, any::<u16>()).prop_map(|(user, k)| Op::Withdraw { user, k }),
@@ -593,13 +600,15 @@ impl Check for SsPoolHistory {
         let mut swaps = 0;
         let mut deposits = 0;
         for (step, op) in c.ops.iter().enumerate() {
+            pw.reversed_msgs = false;
             // the property quantifies over pools holding at least one whole token of each asset
             if before.reserves[0] < 10u128.pow(dcm[0] as u32) || before.reserves[1] < 10u128.pow(dcm[1] as u32) {
                 rec.class("left_domain_below_one_whole_token");
                 break;
             }
             match op {
-                Op::Provide { user, a0, a1 } => {
+                Op::Provide { user, a0, a1, reversed } => {
+                    pw.reversed_msgs = *reversed;
                     let usr = pw.user(*user);
                     let amounts = [
                         resolve(a0, before.reserves[0], pw.w.bal(&pw.infos[0], &usr)).max(1),
